@@ -72,6 +72,9 @@ def tyCode (ty : DataType) : Int :=
 theorem typeOfCode_tyCode (ty : DataType) : typeOfCode (tyCode ty) = ty := by
   cases ty <;> rfl
 
+theorem knownTypeCode_tyCode (ty : DataType) : knownTypeCode (tyCode ty) = true := by
+  cases ty <;> rfl
+
 /-- the bytes of the `sys_schema` row of column `fd` of table `name` -/
 def schemaRowBytes (name : Bytes) (fd : FieldDef) : Bytes :=
   (encBool false ++ encU32 name.length ++ name) ++
@@ -131,7 +134,7 @@ theorem decRow_schemaRow (name : Bytes) (fd : FieldDef) (hn : name.length < 2 ^ 
   refine ⟨m, by unfold decRow; rw [hm], e1, ?_⟩
   unfold fieldOf
   rw [e2, e3, e4]
-  simp only [nameOfBytes_toUTF8, typeOfCode_tyCode]
+  simp only [nameOfBytes_toUTF8, typeOfCode_tyCode, knownTypeCode_tyCode, Bool.not_true, Bool.false_eq_true, if_false]
 
 /-! ### `schemaOf` after one more row -/
 
